@@ -33,7 +33,7 @@ LEAN_TARGETS = ["RV.C02.Props", "RV.C02.PropsConc", "RV.C02.Audit"]
 LEAN_EXTRA_DIRS = ("C01",)    # the driver and the composition theorems import C01's Memory model
 AUDIT = "RV/C02/Audit.lean"
 DRIVER = "drv_c02"
-CASES = {"quick": 3000, "thorough": 60000, "search": 20000}
+CASES = {"quick": 3000, "thorough": 50000, "search": 20000}
 RULE = ("random scripts (3-12 mutating calls quick / 3-16 thorough, each followed by an observation block and 2-5 probes) over one Memory "
         "store seen through a Dataset (default_union on/off), a ConjunctiveGraph and independent Graph(store, name) "
         "views, default_union switched at run time, reads including triples_choices (each list position) and property-path quad patterns (p/q, p|q, ^p, p*); graph names: IRI, blank node with the same label, IRI, blank node, one never created, one created but "
@@ -411,7 +411,9 @@ def run_impl(case):
                 bump("graphnew")
             elif op == "rmgraph":
                 gk = int(w[2])
-                im.d.remove_graph(im.names[gk] if k % 2 else im.view(gk))
+                # by identifier, by a same-store view, or by a Graph object of ANOTHER store bearing the name (no merge here:
+                # remove_graph does not go through _graph; the store identifies a graph by its identifier)
+                im.d.remove_graph(im.names[gk] if k % 2 else (Graph(identifier=im.names[gk]) if k % 4 == 0 else im.view(gk)))
                 orc.remove_graph(gk)
                 touched = {gk}
                 reg_touched.add(gk)
@@ -419,7 +421,7 @@ def run_impl(case):
                 out = "ok"
             elif op == "rmctx":
                 gk = int(w[2])
-                im.top(w[1]).remove_context(im.view(gk))
+                im.top(w[1]).remove_context(Graph(identifier=im.names[gk]) if k % 4 == 3 else im.view(gk))
                 orc.remove((None, None, None), gk)
                 touched = {gk}
                 flags["removal"] = True
@@ -899,8 +901,10 @@ def gen_case(rng, tier, i):
                 out.append(f"quads {top} {ps} {garg(k) if rng.random() < 0.8 else rng.choice(['-', 'N'])}")
             elif r < 0.92:
                 out.append(f"graphsof {top} {' '.join(map(str, t))}")
-            elif r < 0.96:
+            elif r < 0.95:
                 out.append(f"vcontains {k} {ps}")
+            elif r < 0.98:
+                out.append(f"vtriples {k} {ps}")      # a view read with a bound pattern: the store's index dispatch
             else:
                 out.append(f"vlen {k}")
         return out
